@@ -33,7 +33,13 @@ TStrs(n) == IF n = 0 THEN {<<>>} ELSE LET S == TStrs(n - 1) IN S \cup {x \o f : 
 OpsSeeds == { <<60,97,62,60,97,62,60,47,97,62,32,60,47,97,32,62,120>>,          \* <a><a></a> </a >x
               <<60,97,62,60,98,62,60,47,97,62,60,47,98,62>>,                    \* <a><b></a></b>
               <<60,97,62,32,60,97,47,62,60,33,45,45,60,47,97,62,45,45,62,60,47,97,62,60,98,47,62>>,
-              <<60,97,62,60,98,62,60,47,98>> }                                   \* truncated
+              <<60,97,62,60,98,62,60,47,98>>,                                    \* truncated
+              \* a lone ']' / '-' inside CDATA / a comment, later "]>" / "->" that is NOT the terminator, a look-alike end tag behind it
+              <<60,97,62,60,33,91,67,68,65,84,65,91,109,93,110,93,62,60,47,97,62,93,93,62,60,47,97,62,60,98,47,62>>,      \* <a><![CDATA[m]n]></a>]]></a><b/>
+              <<60,97,62,60,33,45,45,109,45,110,45,62,60,47,97,62,45,45,62,60,47,97,62,60,98,47,62>>,      \* <a><!--m-n-></a>--></a><b/>
+              \* names that are not UTF-8: matched byte for byte (0xFF vs 0xFE differ; nothing equals the empty name)
+              <<60,255,62,60,47,254,62,120,60,47,255,62>>,      \* <FF></FE>x</FF>
+              <<60,233,62,60,47,62,60,233,47,62,60,47,233,62>> }     \* <E9></><E9/></E9>
 Cfg0 == CASE InitCfgs = "default" -> {DefaultCfg}
           [] InitCfgs = "four" -> {[DefaultCfg EXCEPT !.cen = a, !.aue = b, !.eee = c, !.tmn = d] : a, b, c, d \in BOOLEAN}
           [] OTHER -> {[DefaultCfg EXCEPT !.tts = a, !.tte = b, !.eee = c] : a, b, c \in BOOLEAN}
@@ -176,12 +182,13 @@ Inv_NestEmpty == (nstreams = 0 /\ st.ps = "InsideEmpty") => Front(st.opened) = T
 
 \* C12: the skip result, declaratively, from the transformed remaining stream
 \* (trim_text_start forced off, as documented): first End named nm at depth 0.
+MissedEnd(nm) == IF IsUtf8(nm) THEN "IllFormed.MissingEndTag" ELSE "Encoding"
 RECURSIVE FindEnd(_, _, _, _)
 FindEnd(tr, nm, depth, prevAfter) ==
-    IF tr = <<>> THEN [ok |-> FALSE, e |-> "IllFormed.MissingEndTag", end |-> 0, after |-> 0]
+    IF tr = <<>> THEN [ok |-> FALSE, e |-> MissedEnd(nm), end |-> 0, after |-> 0]
     ELSE LET e == Head(tr) IN
          IF e.k = "Err" THEN [ok |-> FALSE, e |-> e.e, end |-> 0, after |-> e.after]
-         ELSE IF e.k = "Eof" THEN [ok |-> FALSE, e |-> "IllFormed.MissingEndTag", end |-> 0, after |-> e.after]
+         ELSE IF e.k = "Eof" THEN [ok |-> FALSE, e |-> MissedEnd(nm), end |-> 0, after |-> e.after]
          ELSE IF e.k = "Start" /\ Slice(inp, e.lo, e.lo + e.n) = nm THEN FindEnd(Tail(tr), nm, depth + 1, e.after)
          ELSE IF e.k = "End" /\ Slice(inp, e.lo, e.hi) = nm
               THEN IF depth = 0 THEN [ok |-> TRUE, e |-> "", end |-> prevAfter, after |-> e.after]
